@@ -206,12 +206,19 @@ fn run_typed<T: Payload>(p: &Program, cfg: &RunCfg, m: Option<Arc<Explored>>) ->
             if lockprog {
                 flags.touch_lock();
             }
+            // thread 0's handles exist before the others start: build its
+            // context first so that a sequential prefix can run
+            let (s0, r0) = sets.remove(0);
+            let mut c0 = Ctx::<T>::new(0, s0, r0, flags.clone());
+            let n0 = p.threads[0].ops.len();
+            let pre = p.pre.min(n0);
+            c0.run_range(&p, 0, pre);
             let mut joins = Vec::new();
             let uses_flags = p
                 .threads
                 .iter()
                 .any(|t| t.ops.iter().any(|o| matches!(o, Op::Set(_) | Op::Wait(_))));
-            let rest: Vec<_> = sets.drain(1..).collect();
+            let rest: Vec<_> = sets.drain(..).collect();
             for (i, (s, r)) in rest.into_iter().enumerate() {
                 let p2 = p.clone();
                 let fl = flags.clone();
@@ -231,9 +238,8 @@ fn run_typed<T: Payload>(p: &Program, cfg: &RunCfg, m: Option<Arc<Explored>>) ->
                 handles.extend(joins.iter().map(|j| j.thread().clone()));
                 flags.open(handles);
             }
-            let (s0, r0) = sets.pop().unwrap();
-            let mut c0 = Ctx::<T>::new(0, s0, r0, flags.clone());
-            c0.run(&p);
+            c0.run_range(&p, pre, n0);
+            c0.finish();
             // wait with park loops (tolerant of late unparks), join afterwards
             flags.wait_finished(joins.len() as u32);
             for j in joins {
